@@ -2,7 +2,7 @@
    ONLY statements closed by exact + Print Assumptions. *)
 From Coq Require Import ZArith List Bool Arith Lia Permutation.
 Import ListNotations.
-From PV Require Import Sched.Block Sched.Confluence Sched.Accept.
+From PV Require Import Sched.Block Sched.Confluence Sched.Accept Sched.DagAccept.
 
 (* two packed bit ranges intersect iff some bit lies in both (whole signals, fields, nested fields, slices are all ranges) *)
 Theorem C02_overlap_iff_shared_bit a b : wf_ivl a = true -> wf_ivl b = true ->
@@ -20,6 +20,15 @@ Theorem C02_accepted_pass_orders_readers_after_writers d order : sched_ok d orde
   (forall x y, pair_in (expl d) x y = true -> (pos order x < pos order y)%nat).
 Proof. exact (sched_ok_sound d order). Qed.
 
+(* the acceptor run on pymtl3's CONSTRAINT GRAPH G: in every schedule the graph allows (every linear extension of G, whatever
+   the tie-break), readers run after writers unless an explicit constraint inverts the pair, and explicit constraints hold *)
+Theorem C02_accepted_graph_orders_readers_after_writers_in_every_schedule d G paths : dag_ok d G paths = true ->
+  forall o, perm_b d o = true -> lin_ext_b (Gb G) o = true ->
+  (forall a b v, In a (ids d) -> In b (ids d) -> a <> b -> writes_bit d a v -> reads_bit d b v ->
+                 pair_in (expl d) b a = false -> (pos o a < pos o b)%nat) /\
+  (forall x y, pair_in (expl d) x y = true -> (pos o x < pos o y)%nat).
+Proof. exact (dag_orders_readers_after_writers d G paths). Qed.
+
 Theorem C02_lin_ext_checker E l : lin_ext_b E l = true <-> lin_ext E l.
 Proof. exact (lin_ext_b_spec E l). Qed.
 Theorem C02_each_block_once d order : perm_b d order = true -> NoDup order /\ Permutation order (ids d).
@@ -36,4 +45,4 @@ Proof. vm_compute. repeat split. Qed.
 
 Print Assumptions C02_overlap_iff_shared_bit. Print Assumptions C02_footprints_overlap_iff.
 Print Assumptions C02_accepted_pass_orders_readers_after_writers. Print Assumptions C02_lin_ext_checker.
-Print Assumptions C02_each_block_once.
+Print Assumptions C02_each_block_once. Print Assumptions C02_accepted_graph_orders_readers_after_writers_in_every_schedule.
